@@ -3,54 +3,63 @@
 The inductive obligations inject pre-states through internal attributes (`_before`, `_buffer`,
 `ptyproc`, `_read_queue`, `w`, `cur_r`, FSM `memory`, ...) and build objects without forking.  A
 refactoring that renames or re-shapes those internals would make such a harness describe states the
-code never has.  Each probe checks, concretely and through behaviour, that the internals a harness
-relies on still mean what it assumes.  The runner evaluates the probe of a harness before it reports
-any counterexample: if the probe fails, nothing is reported as VIOLATION (the run ends as
-"harness does not fit this representation", exit 2) - a renamed attribute is never an alarm.
+code never has.  Each probe checks that the internals a harness relies on still EXIST under the
+names and shapes it assumes.  The runner evaluates the probes of a harness before it reports any
+counterexample: if one fails, nothing is reported as VIOLATION (the run ends as "harness does not
+fit this representation", exit 2) - a renamed attribute is never an alarm.
+
+The probes are deliberately structural (names, types, which attribute a property reads): they must
+not depend on the code *behaving correctly*, otherwise a real defect would fail the probe and hide
+its own counterexample (an earlier, behavioural version of these probes did exactly that for two
+seeded changes).
 """
+
+
+def _names(fn):
+    code = getattr(fn, '__code__', None)
+    if code is None and isinstance(fn, property):
+        code = fn.fget.__code__
+    out = set(code.co_names) | set(code.co_varnames)
+    for c in code.co_consts:
+        if hasattr(c, 'co_names'):
+            out |= set(c.co_names)
+    return out
 
 
 def expect_core():
     import io
     from pexpect.spawnbase import SpawnBase
-    from pexpect.expect import Expecter, searcher_string, searcher_re
-    from pexpect.exceptions import EOF, TIMEOUT
-    import re
-
-    class Miss:
-        eof_index = -1
-        timeout_index = 0
-        longest_string = 2
-
-        def __init__(self):
-            self.seen = []
-
-        def search(self, window, freshlen, searchwindowsize=None):
-            self.seen.append((window, freshlen, searchwindowsize))
-            return -1
+    import pexpect.expect as E
     sp = SpawnBase(encoding='utf-8')
-    if not (sp.buffer_type is io.StringIO and isinstance(sp._before, io.StringIO) and isinstance(sp._buffer, io.StringIO)):
+    for name in ('_before', '_buffer', 'buffer_type', 'before', 'after', 'match', 'match_index', 'searchwindowsize',
+                 'maxread', 'delayafterread', 'flag_eof'):
+        if not hasattr(sp, name):
+            return False
+    if sp.buffer_type is not io.StringIO or type(sp._before) is not io.StringIO or type(sp._buffer) is not io.StringIO:
         return False
-    sp._before.write('abcd')
-    sp._buffer.write('cd')
-    m = Miss()
-    ex = Expecter(sp, m, -1)
-    if ex.existing_data() is not None or m.seen[0][0] != 'abcd':
-        return False                      # the window is rebuilt from the untrimmed copy `_before`
-    if ex.new_data('ef') is not None or sp._before.getvalue() != 'abcdef' or not 'abcdef'.endswith(sp._buffer.getvalue()):
+    if SpawnBase(encoding=None).buffer_type is not io.BytesIO:
         return False
-    if ex.timeout() != 0 or sp.before != 'abcdef' or sp.after is not TIMEOUT:
+    sp._buffer.write('q')
+    if sp.buffer != 'q':                      # the public `buffer` reads `_buffer`
         return False
-    if sp.buffer != sp._buffer.getvalue():
+    for meth in ('existing_data', 'new_data', 'do_search', 'eof', 'timeout', 'errored', 'expect_loop'):
+        if not callable(getattr(E.Expecter, meth, None)):
+            return False
+    if not {'_before', '_buffer'} <= _names(E.Expecter.new_data) | _names(E.Expecter.existing_data):
         return False
-    ss = searcher_string(['ab', EOF, 'c', TIMEOUT])
-    if ss._strings != [(0, 'ab'), (2, 'c')] or (ss.eof_index, ss.timeout_index, ss.longest_string) != (1, 3, 2):
+    if '_before' not in _names(E.Expecter.eof) or '_before' not in _names(E.Expecter.do_search):
         return False
-    cp = re.compile('x')
-    sr = searcher_re([TIMEOUT, cp, EOF])
-    if sr._searches != [(1, cp)] or (sr.eof_index, sr.timeout_index) != (2, 0):
+    ex = E.Expecter(sp, type('S', (), {'longest_string': 3})(), 5)
+    if (ex.searchwindowsize, ex.lookback, ex.spawn) != (5, 3, sp):
         return False
-    if ss.search('zzab', 4) != 0 or (ss.start, ss.end, ss.match) != (2, 4, 'ab'):
+    ss = E.searcher_string(['ab', E.EOF])
+    if not (isinstance(ss._strings, list) and ss._strings and tuple(ss._strings[0]) == (0, 'ab')):
+        return False
+    for name in ('eof_index', 'timeout_index', 'longest_string'):
+        if not isinstance(getattr(ss, name, None), int):
+            return False
+    sr = E.searcher_re([E.TIMEOUT])
+    if not isinstance(sr._searches, list) or not isinstance(sr.timeout_index, int):
         return False
     return True
 
@@ -61,87 +70,30 @@ def transports():
     import pexpect.fdpexpect as FD
     import pexpect.popen_spawn as PO
     import pexpect.socket_pexpect as SK
-    from pexpect.exceptions import EOF, TIMEOUT
-
-    class _OS:
-        linesep = '\n'
-        name = 'posix'
-
-        def __init__(self):
-            self.w = []
-
-        def read(self, fd, n):
-            return b'xy'[:n]
-
-        def write(self, fd, b):
-            self.w.append((fd, b))
-            return len(b)
-    o = _OS()
-    old = (SB.os, PS.os, FD.os)
-    try:
-        SB.os = PS.os = FD.os = o
-        sp = PS.spawn(None)
-
-        class _P:
-            flag_eof = False
-
-            def isalive(self):
-                return True
-        sp.ptyproc, sp.child_fd, sp.closed, sp.use_poll, sp.delaybeforesend = _P(), 7, False, False, None
-        if SB.SpawnBase.read_nonblocking(sp, 2) != b'xy':
+    need = [
+        (PS.spawn.read_nonblocking, {'closed', 'use_poll', 'child_fd', 'isalive', 'flag_eof', 'timeout'}),
+        (PS.spawn.isalive, {'ptyproc'}),
+        (PS.spawn.send, {'_encoder', 'child_fd', '_log', 'delaybeforesend'}),
+        (SB.SpawnBase.read_nonblocking, {'child_fd', '_decoder', '_log', 'flag_eof'}),
+        (SB.SpawnBase._log, {'logfile', 'logfile_read', 'logfile_send'}),
+        (FD.fdspawn.read_nonblocking, {'child_fd', 'use_poll', 'timeout'}),
+        (FD.fdspawn.send, {'_encoder', 'child_fd', '_log'}),
+        (PO.PopenSpawn.read_nonblocking, {'_buf', '_read_queue', '_read_reached_eof', '_decoder', '_log', 'flag_eof'}),
+        (PO.PopenSpawn.send, {'proc', '_encoder', '_log'}),
+        (PO.PopenSpawn._read_incoming, {'proc', '_read_queue'}),
+        (SK.SocketSpawn.read_nonblocking, {'socket', '_timeout', 'flag_eof', 'timeout'}),
+        (SK.SocketSpawn.send, {'socket', '_encoder', '_log'}),
+    ]
+    for fn, names in need:
+        if not names <= _names(fn):
             return False
-        if sp.send(b'q') != 1 or o.w[-1] != (7, b'q'):
-            return False
-        sp.flag_eof = True
-        if sp.ptyproc.flag_eof is not True:
-            return False
-        f = FD.fdspawn.__new__(FD.fdspawn)
-        SB.SpawnBase.__init__(f)
-        f.child_fd, f.closed, f.use_poll = 7, False, False
-        if f.send(b'z') != 1 or o.w[-1] != (7, b'z'):
-            return False
-    finally:
-        SB.os, PS.os, FD.os = old
-    p = PO.PopenSpawn.__new__(PO.PopenSpawn)
-    SB.SpawnBase.__init__(p, timeout=1)
-
-    class _Q:
-        def __init__(self):
-            self.items = [b'abc', None]
-
-        def get_nowait(self):
-            if not self.items:
-                raise PO.Empty()
-            return self.items.pop(0)
-    p.closed, p._buf, p._read_queue = False, b'', _Q()
-    if p.read_nonblocking(2, 1) != b'ab' or p._buf != b'c' or p._read_reached_eof:
+    if not isinstance(PS.spawn.__dict__.get('flag_eof'), property):
         return False
-    if p.read_nonblocking(2, 1) != b'c' or not p._read_reached_eof:
-        return False
-
-    class _S:
-        t = None
-
-        def fileno(self):
-            return 7
-
-        def gettimeout(self):
-            return self.t
-
-        def settimeout(self, t):
-            self.t = t
-
-        def recv(self, n):
-            return b'k'
-    s = SK.SocketSpawn(_S(), timeout=1)
-    if s.read_nonblocking(1, 1) != b'k' or s.socket.t is not None:
-        return False
-    u = SB.SpawnBase(encoding='utf-8')
-    if not hasattr(u, '_decoder') or not hasattr(u, '_encoder') or u._decoder.decode(b'a', final=False) != 'a':
-        return False
-    for name in ('logfile', 'logfile_read', 'logfile_send', 'timeout', 'maxread', 'delayafterread'):
-        if not hasattr(u, name):
-            return False
+    for mod, names in ((SB, {'os'}), (PS, {'os', 'time', 'select_ignore_interrupts', 'poll_ignore_interrupts', 'tty'}),
+                       (FD, {'os', 'select_ignore_interrupts', 'poll_ignore_interrupts'}), (PO, {'os', 'time', 'Empty'})):
+        for n in names:
+            if not hasattr(mod, n):
+                return False
     return True
 
 
@@ -159,6 +111,10 @@ def lifecycle():
                  'delayafterclose', 'delayafterterminate', 'delaybeforesend'):
         if not hasattr(sp, name):
             return False
+    for fn, names in ((PS.spawn.close, {'ptyproc', 'child_fd', 'closed'}), (PS.spawn.wait, {'ptyproc'}),
+                      (PS.spawn.kill, {'pid'}), (PS.spawn.terminate, {'kill', 'isalive', 'delayafterterminate'})):
+        if not names <= _names(fn):
+            return False
     return transports()
 
 
@@ -166,22 +122,18 @@ def screen():
     import pexpect.screen as S
     import pexpect.ANSI as A
     s = S.screen(2, 3)
-    if [list(r) for r in s.w] != [[' '] * 3, [' '] * 3]:
+    if not (isinstance(s.w, list) and len(s.w) == 2 and all(isinstance(r, list) and len(r) == 3 for r in s.w)):
         return False
-    if (s.cur_r, s.cur_c, s.cur_saved_r, s.cur_saved_c, s.scroll_row_start, s.scroll_row_end, s.rows, s.cols) != (1, 1, 1, 1, 1, 2, 2, 3):
-        return False
-    s.cur_r, s.cur_c = 2, 3
-    s.put('X')
-    if s.w[1][2] != 'X' or s.get_abs(2, 3) != 'X':
-        return False
+    for name in ('cur_r', 'cur_c', 'cur_saved_r', 'cur_saved_c', 'scroll_row_start', 'scroll_row_end', 'rows', 'cols'):
+        if not isinstance(getattr(s, name, None), int):
+            return False
     t = A.ANSI(2, 3)
-    if t.state.current_state != 'INIT' or t.state.memory != [t]:
+    st = getattr(t, 'state', None)
+    if st is None or not hasattr(st, 'current_state') or not isinstance(getattr(st, 'memory', None), list):
         return False
-    t.write('\x1b[2')
-    if t.state.current_state != 'NUMBER_1' or t.state.memory[1:] != ['2']:
+    if st.current_state != 'INIT' or not st.memory or st.memory[0] is not t:
         return False
-    t.write(';3H')
-    if (t.cur_r, t.cur_c) != (2, 3) or t.state.current_state != 'INIT' or t.state.memory != [t]:
+    if not isinstance(getattr(st, 'state_transitions', None), dict):
         return False
     return True
 
